@@ -115,7 +115,7 @@ def api_self(I: Interp, st: State, cls: ClassInfo, connected: bool = True) -> Te
     if connected:
         fields["_reader"] = ("sym", "reader", ("extobj", "StreamReader"))
         fields["_writer"] = ("sym", "writer", ("extobj", "StreamWriter"))
-    return st.alloc(HeapObj("obj", cls, fields, [], False, "self", False))
+    return st.alloc(HeapObj("obj", cls, fields, [], False, "self", False, () if connected else ("_reader", "_writer")))
 
 
 def sym_arg(I: Interp, st: State, name: str, typ: Any) -> Term:
